@@ -59,7 +59,7 @@ def run(ctx):
     ), assumptions=[
         "raft timestamps of successive entries are strictly increasing and positive (every proposal carries its own time.Now().UnixNano()); "
         "with equal timestamps a cleared and re-created collection reuses its generation under wait_compact (reported separately)",
-        "expiry commands (*EXPIRE, *PERSIST, SETEX) are not generated here (property C10)",
+        "expiry commands are generated (durations of a few seconds, ~63 years, or invalid); reads use the wall clock, writes the raft timestamp; the local_deletion background sweep is not started (property C10)",
         "keys are well-formed table:key with non-empty table and key (malformed keys only in the failing-input search)",
         "scores are integer-valued doubles or infinities (-0 printed as 0); collections stay below the 5000-element bulk limit",
     ])
